@@ -62,7 +62,7 @@ class LockShim(object):
 
 
 class Sched(object):
-    def __init__(self, n, first=0, switches=(), event_budget=200000):
+    def __init__(self, n, first=0, switches=(), event_budget=200000, handoff=False):
         self.n = n
         self.first = first
         self.sems = [threading.Semaphore(0) for _ in range(n)]
@@ -83,6 +83,10 @@ class Sched(object):
         self.budget = event_budget
         self.free_running = False
         self.record_tids = False
+        # lock hand-off: a thread that was parked on a lock runs as soon as the lock is released (what an OS does
+        # for a contended lock), instead of staying ready until the next scheduled switch
+        self.handoff = handoff
+        self.pending_handoff = None
 
     def tid(self):
         return getattr(self.tls, 'tid', None)
@@ -107,6 +111,8 @@ class Sched(object):
         if self.record_tids:
             self.event_tid.append(tid)
         tgt = self.switches.get(e)
+        if tgt is None and self.pending_handoff is not None:
+            tgt, self.pending_handoff = self.pending_handoff, None
         if tgt == -1:      # "whoever else can run"
             tgt = next((t for t in range(self.n) if t != tid and self.state[t] == 'ready'), None)
         if tgt is not None and tgt != tid and self.state[tgt] == 'ready':
@@ -149,6 +155,8 @@ class Sched(object):
             if s is shim and self.state[t] == 'blocked':
                 self.state[t] = 'ready'
                 del self.waiting_on[t]
+                if self.handoff and self.pending_handoff is None:
+                    self.pending_handoff = t
 
     def finish(self, tid):
         self.tls.tid = None
